@@ -20,6 +20,7 @@ def run(chk, tier):
     gcalls.check_order(chk)
     gguard.check_memo_caches(chk)
     gguard.check_scans(chk)
+    gguard.check_unique_insertion(chk)
     gguard.check_returns(chk)
     ghaz.check_main(chk)
     gtab.check(chk, gen.facts(), which=("keys", "sizes", "classes"))
